@@ -113,8 +113,9 @@ PROPS_PART = {
                      what='exactly one OPT (root owner, class = server payload size, version 0) iff an OPT of the additional section was reached (also when it is malformed); BADVERS from the raw TTL field (version bits, also with ext-rcode bit 0x80 set) with no answer records; FORMERR for a non-root / undecodable owner or broken option framing; where both apply either is accepted')],
         kani=[],
         cex={},
-        unverified=['Server::new (initial payload size 1232) is not extracted: the invariant edns_udp_payload_size >= 512 is a `requires` (Server::wf) '
-                    'established by inspection of new() and kept by set_edns_udp_payload_size (proved)'],
+        unverified=['the catalog half of Server::wf (every catalog ever stored in the RwLock is well-formed) is a `requires` on the request path: '
+                    'RwLock::new / set_catalog are stand-ins without a lock-invariant argument; the payload-size half (>= 512) is now proved: '
+                    'established by Server::new (extracted, [C09.size_min]) and kept by set_edns_udp_payload_size'],
         assumptions=['slice lengths <= isize::MAX'],
     ),
     'C01': dict(
